@@ -458,6 +458,32 @@ def r10i(run, funcs):
     run.floor("R10i", "collecting handle_error sites", total, 20)
 
 
+def option_defaults(run, rule: str, expected: dict, why: str):
+    """the defaults the property presupposes ("with the default options ..."): read from the class body of Options *and*
+    from the defaults of its constructor - the two must agree with each other and with the documented value"""
+    from ..fold import Folder
+    O = run.repo.cls("utype.parser.options", "Options")
+    init = O.methods.get("__init__")
+    n = 0
+    for name, want in expected.items():
+        n += 1
+        got = []
+        if name in O.assigns:
+            got.append(("class attribute", unparse(O.assigns[name])))
+        if init is not None and name in init.params:
+            d = init.param_default(name)
+            if d is not None:
+                got.append(("constructor default", unparse(d)))
+        # the constructor takes `unprovided` (= "not given", so that merging copies only what was written) and falls back to
+        # the class attribute, which carries the documented default
+        ok = any(w == "class attribute" and t == want for w, t in got) and all(
+            t == want or (w == "constructor default" and t == "unprovided") for w, t in got)
+        run.check(rule, O.ref, f"Options.{name} defaults to {want}", ok, construct=f"default of Options.{name}",
+                  message=f"Options.{name}: " + ", ".join(f"{w} {t}" for w, t in got) + f" (documented default: {want})",
+                  necessity=why)
+    run.floor(rule, "option defaults compared", n, 1)
+
+
 def r10g(run, rule="R10g"):
     """entering a route always opens a new layer: RuntimeContext.enter returns a freshly constructed context on every
     path (error isolation of combinator arguments, items and fields hangs on the layer being the caller's alone)"""
@@ -504,6 +530,9 @@ def check(run):
     run.rule(r10h, run)
     run.rule(r10g, run)
     run.rule(r10i, run, funcs)
+    run.rules_run.append("R10j")
+    run.rule(option_defaults, run, "R10j", {"collect_errors": "False", "max_errors": "None"},
+             "without an explicit cap every failing item is named; collection is off unless asked for")
     # shared clauses that are necessary for C10 as well
     from . import c06, c07
     pd, A, B = c06.siblings(run)
